@@ -590,9 +590,20 @@ func main() {
 			}
 			lists = append(lists, opts)
 		}
-		fobs, fcoqs, fcrash := fileChannel(lists, o.Out)
+		// a burst whose encoded lines exceed the channel's size-triggered flush (500 KiB) within
+		// one flush period: ~230 events of ~2.3 KiB each
+		nsmall := len(lists)
+		for i := 0; i < 230; i++ {
+			lists = append(lists, []OptD{genOpt(r, 0, false), {Kind: "Payload", Payload: r.Bytes(700 + i%5)}})
+		}
+		fobs, fcoqs, fcrash := fileChannel(lists[:nsmall], o.Out)
+		bobs, bcoqs, bcrash := fileChannel(lists[nsmall:], o.Out)
+		fobs, fcoqs, fcrash = append(fobs, bobs...), append(fcoqs, bcoqs...), append(fcrash, bcrash...)
 		for j := range lists {
 			id := len(cases)
+			if j >= nsmall {
+				dist["kind:filechan-burst"]++
+			}
 			dist["kind:filechan"]++
 			var snap []string
 			for _, kv := range fobs[j].Snap {
